@@ -251,6 +251,21 @@ CLAIMS["C13"] = (
     "fits the declared column width (ParseText parses every width with bitSize 64).",
     "DESIGN.md section 4, C13")
 
+CLAIMS["C08"] = (
+    "Against Mycat's algorithms transcribed as spec functions with Java int / long semantics (bit-vector mode, every input): Murmur3_32 "
+    "-- mixK1, mixH1, fmix equal Guava's steps computed in 32-bit wrap-around arithmetic (the Go code detours through int64), and "
+    "HashUnencodedChars is the char-pair fold over the key's character sequence with the single-character tail and the final mix (loop "
+    "invariant, any key length); PartitionByString -- stringHash is the Java h*31+c hash of the window [max(start,0), min(end,length)) "
+    "(0 for an empty window) and FindForKey resolves the configured hash slice as Mycat does and returns segment[hash & 1023]; "
+    "PartitionByLong.FindForKey returns segment[key & 1023]; PartitionByMod.FindForKey returns |key| mod count inside [0, count) "
+    "(fixed for math.MinInt64). Recorded finding: the string rule measures the key in bytes where Mycat counts characters (non-ASCII keys "
+    "with a negative or open hash slice).",
+    "Assumed: the rune sequence of a Go string equals Java's char sequence (true for BMP characters only; supplementary-plane characters "
+    "are one rune and two Java chars) -- rune-len / rune-at are uninterpreted; NumValue / GetString parse keys as specified in C09. NOT under "
+    "contract: PartitionByLong.Init (segment table construction from count/length lists), the murmur bucket map (treemap, virtual buckets, "
+    "weights) and its Ceiling lookup, PaddingMod, so 'same physical database as Mycat' is decided for the hash kernels and the lookups only.",
+    "DESIGN.md section 4, C08")
+
 NA = {
  "C02": "not applicable to contract-based verification here: the oracle is the result of executing SQL on data (what one MySQL holding all shards would return); no contract within reach expresses an SQL execution semantics, and the rewriter is ~3k lines of visitors over TiDB AST types (DESIGN.md section 5)",
  "C06": "not applicable: the property compares a token pre-check with the decision of the yacc-generated parser; the specification is that parser (tables + hand-written lexer), which is outside the verifier's subset (DESIGN.md section 5)",
